@@ -22,5 +22,26 @@ def _nontrivial(c):
     return s["items"] >= 2 and s["depth"] >= 2
 
 
+# a task resumed with an exception (a dependency failed) that catches it and yields more batch work must get that work
+# started before the pending batch is flushed
+_CATCH_THEN_BATCH = {
+    "roots": [[{"op": "yield", "x": "x1", "s": {"tuple": [
+        {"new": {"task": [{"op": "yield", "x": "a1", "s": {"new": {"item": [0, 1, {"set": 1}]}}}, {"op": "return", "e": {"var": "a1"}}]}},
+        {"new": {"task": [
+            {"op": "try", "body": [{"op": "yield", "x": "b1", "s": {"new": {"task": [{"op": "raise", "e": 5}]}}}], "x": "e1",
+             "handler": [{"op": "yield", "x": "b2", "s": {"new": {"task": [
+                 {"op": "yield", "x": "b3", "s": {"new": {"item": [0, 2, {"set": 2}]}}}, {"op": "return", "e": {"var": "b3"}}]}}}]},
+            {"op": "return", "e": 0}]}},
+        {"new": {"task": [
+            {"op": "try", "body": [{"op": "yield", "x": "c1", "s": {"new": {"error": 6}}}], "x": "e2",
+             "handler": [{"op": "yield", "x": "c2", "s": {"new": {"task": [
+                 {"op": "yield", "x": "c3", "s": {"new": {"item": [0, 3, {"set": 3}]}}}, {"op": "return", "e": {"var": "c3"}}]}}}]},
+            {"op": "return", "e": 0}]}}]}},
+        {"op": "return", "e": {"var": "x1"}}]],
+    "params": {"kinds": {}},
+}
+_EXTRA = [(1, dict(_base, name="recover", p_try=0.4, p_raise=0.15, p_errfut=0.15, p_item_err=0.1, nkinds=1, budget=22))]
+
 mach.install(globals(), "C04", ("EvBefore", "EvFlush"), ("C04:",), PROFILES, n_quick=300, n_thorough=25000,
-             nontrivial=_nontrivial, case_filter=machmon.yield_only, level="proof")
+             nontrivial=_nontrivial, case_filter=machmon.yield_only, level="proof", corpus=[_CATCH_THEN_BATCH],
+             extra_gen=mach.extra_profiles(_EXTRA, 40, 3000))
